@@ -3,6 +3,7 @@ package checks
 import (
 	"encoding/json"
 	"fmt"
+	"math"
 	"math/rand"
 	"os"
 	"os/exec"
@@ -60,8 +61,16 @@ func genSnapshot(seed int64, g int, scale int) *store.PersistedData {
 		}
 		d.Jobs = append(d.Jobs, j)
 	}
+	if unencodable(g) && len(d.Jobs) > 0 {
+		// a snapshot that cannot be encoded (NaN job variable passed through the embedding API): Save must fail and leave
+		// the previous snapshot in place
+		d.Jobs[len(d.Jobs)/2].Variables["nan"] = math.NaN()
+	}
 	return d
 }
+
+// unencodable: generation 3 (of the victim's 3-4 saves) carries a value JSON cannot represent
+func unencodable(g int) bool { return g == 3 }
 
 // saverMain is the victim process: `pxcheck saver <dir> <seed> <gens> <scale>`; acknowledges each successful save with
 // mkdir <dir>/ack-<g>, each failed save with mkdir <dir>/err-<g> (mkdir is not among the injected system calls)
@@ -475,10 +484,10 @@ func readerRace(root string, seed int64, tier string) *CaseResult {
 		}(rdr)
 	}
 	for g := 1; g <= n; g++ {
-		d := genSnapshot(seed, g, 12)
+		d := genSnapshot(seed, g+10, 12)
 		if g%5 == 0 {
 			// generation with zero jobs would be indistinguishable: give it one job
-			d = genSnapshot(seed, g+1, 12)
+			d = genSnapshot(seed, g+11, 12)
 			for i := range d.Jobs {
 				d.Jobs[i].Pipeline = fmt.Sprintf("gen-%d-of-%d", g, len(d.Jobs))
 			}
